@@ -17,7 +17,7 @@ Lemma node_reproduction_single_node_axis_refuted :
     length c = 1%nat /\ length v = 1%nat /\
     interp_call var KLinear [] [c] DFloat v (IPoints [[nth 0 c 0]]) None <> Ok [nth 0 v 0].
 Proof.
-  exists [2], [7], current. repeat split. cbv [interp_call malformed mesh1 mesh1_raises current
+  exists [2], [7], current. repeat split. cbv [interp_call rejected mesh1 mesh1_raises current gen_linear_scheme
     existsb length Nat.eqb negb orb andb degenerate schemes_of map combine fst snd]. discriminate.
 Qed.
 
@@ -30,9 +30,9 @@ Lemma mesh_convention_first_axis_singleton_refuted :
     exists r, interp_call as_found KLinear [] cvs DFloat v (IPoints (cart mesh)) None = Ok r.
 Proof.
   exists [[0; 1]; [0; 1]], [1; 2; 3; 4], [[0]; [0; 1]]. split.
-  - cbv [interp_call malformed mesh1 mesh1_raises as_found existsb length Nat.eqb negb orb andb]. reflexivity.
-  - eexists. cbv [interp_call malformed mesh1 mesh1_raises as_found existsb length Nat.eqb negb orb andb
-                  cart flat_map map app degenerate schemes_of combine fst snd]. reflexivity.
+  - cbv [interp_call rejected mesh1 mesh1_raises as_found existsb length Nat.eqb negb orb andb]. reflexivity.
+  - eexists. cbv [interp_call rejected mesh1 mesh1_raises as_found existsb length Nat.eqb negb orb andb
+                  cart flat_map map app degenerate schemes_of combine fst snd gen_linear_scheme]. reflexivity.
 Qed.
 
 (* "per-axis 'nearest' interpolation returns the value of the closest node, for integer
@@ -45,6 +45,6 @@ Lemma peraxis_nearest_integer_values_refuted :
     exists r, interp_call as_found KNearest [] [c] DInt v (IPoints [[x]]) None = Ok r.
 Proof.
   exists [0; 1], [1; 2], 0. split.
-  - cbv [interp_call malformed mesh1 mesh1_raises int_raises as_found existsb length Nat.eqb negb orb andb]. reflexivity.
-  - eexists. cbv [interp_call malformed mesh1 mesh1_raises as_found existsb length Nat.eqb negb orb andb]. reflexivity.
+  - cbv [interp_call rejected mesh1 mesh1_raises int_raises as_found existsb length Nat.eqb negb orb andb]. reflexivity.
+  - eexists. cbv [interp_call rejected mesh1 mesh1_raises as_found existsb length Nat.eqb negb orb andb]. reflexivity.
 Qed.
